@@ -484,9 +484,12 @@ def part_loader(ctx):
     X, y = make_xy(7)
     L = D.DataLoader(X, y, 2)
     trace = []
-    for a in L:
-        for c in L:
-            trace.append((int(a[0][0][0]), int(c[0][0][0])))
+    try:
+        for a in L:
+            for c in L:
+                trace.append((int(a[0][0][0]), int(c[0][0][0])))
+    except Exception as ex:      # judged elsewhere (the loop histories); here only recorded
+        trace.append("raised %s" % type(ex).__name__)
     ctx.extra["nested_for_loops_over_one_loader"] = {
         "n": 7, "batch_size": 2, "observed_(outer first id, inner first id)": trace,
         "model": "loader_interleaved_outer_exhausted: iter(L) is L, one shared cursor, the outer body runs once",
@@ -570,10 +573,15 @@ def part_onehot(ctx):
     # string labels: oracle only (the model is over integers)
     s = ["b", "a", "c", "a"]
     D = _data()
-    out = [[int(v) for v in r] for r in D.one_hot_encode(s)]
-    v = judge_onehot(s, ("ok", out))
+    try:
+        sres = ("ok", [[int(v) for v in r] for r in D.one_hot_encode(s)])
+    except Exception as ex:
+        sres = ("raise", type(ex).__name__)
+    v = judge_onehot(s, sres)
+    ctx.extra["one_hot_string_labels_(oracle_only)"] = {"labels": s, "implementation": sres, "verdict": v or "holds"}
     if v:
-        oracle_fail.append(((s, False, 1), ("ok", out), v))
+        ctx.witness("nn.utils.data.one_hot_encode", "unit-vectors/strings", {"kind": "onehot-str", "labels": s},
+                    "row i = unit vector at the index of label i among the sorted distinct labels", {"implementation": sres, "verdict": v})
     return oracle_fail
 
 
@@ -621,6 +629,12 @@ def replay(ctx, data):
         outs, log = run_loader_impl(inp["n"], inp["batch_size"], inp["transform"], ev)
         res = (outs, log)
         v = judge_loader(inp["n"], inp["batch_size"], inp["transform"], inp["history"], ev, outs, log)
+    elif inp["kind"] == "onehot-str":
+        try:
+            res = ("ok", [[int(v) for v in r] for r in _data().one_hot_encode(inp["labels"])])
+        except Exception as ex:
+            res = ("raise", type(ex).__name__)
+        v = judge_onehot(inp["labels"], res)
     else:
         res = run_onehot_impl(inp["labels"], inp["as_array"], inp["scale"])
         v = judge_onehot(inp["labels"], res)
